@@ -6,12 +6,14 @@ captured; the observable is the sequence of fork / wait / log events plus the
 way the call ended (returned in a "child", sys.exit, RuntimeError, oracle
 exhausted) and `task_id()` afterwards.
 """
+import errno
 import logging
 import os as _real_os
 import random as _random
 import sys
 
 from harness import gallina as G
+from harness.framework import REPO, COQ
 
 ID = "C41"
 COQ_DIRS = ["C41"]
@@ -24,10 +26,10 @@ HAS_SEARCH_TIER = False
 EXHAUSTIVE = {"quick": False, "thorough": True}
 
 TRUSTED_BASE = [
-    "os.fork/os.wait are scripted oracles (lists of pids / (pid,status) pairs); an exhausted oracle stands for the system call raising; no process is really forked",
+    "os.fork/os.wait are scripted oracles (lists of pids / (pid,status) pairs); once exhausted the fake raises the exception selected by the case (OutOfForks/BlockingIOError EAGAIN/OSError ENOMEM; OutOfWaits/ChildProcessError ECHILD/InterruptedError EINTR/OSError EIO) and the harness checks the SAME exception object comes out; no process is really forked",
     "the task id given to start_child is read from the caller's frame inside the fake os.fork (local `i` of start_child); exit attribution and decoded status are read from gen_log records (format string + args)",
     "os.WIFSIGNALED/WTERMSIG/WEXITSTATUS are the REAL CPython/glibc macros on this Linux host; the model's bit arithmetic is compared with them through the logged values (and proved equal to the mod/div reading used by the specification)",
-    "hand-written Gallina model of fork_processes (no translator); `children` dict modelled as an association list (the code never iterates it)",
+    "translators/c41_src.py (fail-closed ast reader of fork_processes: extracts the default budget, the `<= k` bound, the status-classification chain, the budget comparison, the sys.exit argument into Gen/C41_src.v; the remaining text is compared verbatim with C41/SrcExpected.v); the interpretation of that description (supervise_d) and the `children` dict as an association list (the code never iterates it) are hand-written",
     "_reseed_random, sys.platform == 'win32' branch, gen_log text other than the four supervisor messages: not modelled",
 ]
 ASSUMPTIONS = [
@@ -41,12 +43,28 @@ RULE = ("simulated supervisor histories (fresh pids, pid reuse after reaping, un
         "distinct by canonical input; non-trivial = at least one worker exit was handled or a child returned")
 
 
+def pre_build():
+    """regenerate coq/Gen/C41_src.v (decisions + text of fork_processes) from the working tree; fails closed"""
+    import importlib
+    sys.path.insert(0, _real_os.path.join(_real_os.path.dirname(COQ), "translators"))
+    import c41_src
+    importlib.reload(c41_src)
+    c41_src.emit(REPO, _real_os.path.join(COQ, "Gen", "C41_src.v"))
+
+
 class OutOfForks(Exception):
     pass
 
 
 class OutOfWaits(Exception):
     pass
+
+
+# what the system call raises once its scripted results are used up (index = kind in the model)
+FORK_ERRORS = [lambda: OutOfForks(), lambda: BlockingIOError(errno.EAGAIN, "Resource temporarily unavailable"),
+               lambda: OSError(errno.ENOMEM, "Cannot allocate memory")]
+WAIT_ERRORS = [lambda: OutOfWaits(), lambda: ChildProcessError(errno.ECHILD, "No child processes"),
+               lambda: InterruptedError(errno.EINTR, "Interrupted system call"), lambda: OSError(errno.EIO, "I/O error")]
 
 
 class _Capture(logging.Handler):
@@ -73,12 +91,14 @@ class _Capture(logging.Handler):
 class _FakeOS:
     """Stands in for the `os` module inside tornado.process for one call."""
 
-    def __init__(self, events, forks, waits):
-        self._events, self._forks, self._waits = events, list(forks), list(waits)
+    def __init__(self, events, forks, waits, ek):
+        self._events, self._forks, self._waits, self._ek = events, list(forks), list(waits), ek
+        self.raised = None
 
     def fork(self):
         if not self._forks:
-            raise OutOfForks()
+            self.raised = ("forkerr", self._ek[0], FORK_ERRORS[self._ek[0]]())
+            raise self.raised[2]
         pid = self._forks.pop(0)
         fr = sys._getframe(1)
         tid = fr.f_locals.get("i") if fr.f_code.co_name == "start_child" else None
@@ -87,7 +107,8 @@ class _FakeOS:
 
     def wait(self):
         if not self._waits:
-            raise OutOfWaits()
+            self.raised = ("waiterr", self._ek[1], WAIT_ERRORS[self._ek[1]]())
+            raise self.raised[2]
         pid, st = self._waits.pop(0)
         self._events.append([G.Tag("wait"), pid, st])
         return pid, st
@@ -101,7 +122,7 @@ def run_impl(case):
     from tornado.log import gen_log
 
     events = []
-    fake = _FakeOS(events, case["forks"], [tuple(w) for w in case["waits"]])
+    fake = _FakeOS(events, case["forks"], [tuple(w) for w in case["waits"]], case.get("ek", [0, 0]))
     handler = _Capture(events)
     saved = (P.os, P.cpu_count, P._task_id, gen_log.level, gen_log.propagate, list(gen_log.handlers), gen_log.disabled)
     rstate = _random.getstate()
@@ -125,10 +146,10 @@ def run_impl(case):
             out = G.Tag("RuntimeError")
         except AssertionError:
             out = G.Tag("AssertionError")
-        except OutOfForks:
-            out = G.Tag("OutOfForks")
-        except OutOfWaits:
-            out = G.Tag("OutOfWaits")
+        except (OutOfForks, OutOfWaits, OSError) as e:
+            if fake.raised is None or fake.raised[2] is not e:
+                raise                       # not the scripted exception object: unexpected
+            out = [G.Tag(fake.raised[0]), fake.raised[1]]
         task = P.task_id()
     finally:
         P.os, P.cpu_count, P._task_id = saved[0], saved[1], saved[2]
@@ -151,11 +172,12 @@ def coq_input(case):
     mr = "None" if case["mr"] is None else "(Some %s)" % _gz(case["mr"])
     forks = "(@nil Z)" if not case["forks"] else "[" + ";".join(_gz(p) for p in case["forks"]) + "]"
     waits = "(@nil (Z*Z))" if not case["waits"] else "[" + ";".join("(%s,%s)" % (_gz(p), _gz(s)) for p, s in case["waits"]) + "]"
-    return "((%s, %s, %d%%nat, %s, %s, %s)%%Z : input)" % (pre, np_, case["cpu"], mr, forks, waits)
+    ek = case.get("ek", [0, 0])
+    return "(((%d%%nat, %d%%nat), %s, %s, %d%%nat, %s, %s, %s)%%Z : input)" % (ek[0], ek[1], pre, np_, case["cpu"], mr, forks, waits)
 
 
-def mk(np_, mr, forks, waits, cpu=2, pre=None):
-    return {"pre": pre, "np": np_, "cpu": cpu, "mr": mr, "forks": list(forks), "waits": [list(w) for w in waits]}
+def mk(np_, mr, forks, waits, cpu=2, pre=None, ek=(0, 0)):
+    return {"ek": list(ek), "pre": pre, "np": np_, "cpu": cpu, "mr": mr, "forks": list(forks), "waits": [list(w) for w in waits]}
 
 
 # ---------------------------------------------------------------- independent Python oracle of the property
@@ -187,6 +209,8 @@ def verdict(case, o):
         return "accept" if (events == [] and out == "AssertionError" and isinstance(out, G.Tag) and task == case["pre"]) else "reject"
     n = case["np"] if (case["np"] is not None and case["np"] > 0) else case["cpu"]
     budget = 100 if case["mr"] is None else case["mr"]
+    ek = case.get("ek", [0, 0])
+    fork_failed, wait_failed = [G.Tag("forkerr"), ek[0]], [G.Tag("waiterr"), ek[1]]
     if not events or events[0] != [G.Tag("start"), n]:
         return "reject"
     is_child = isinstance(out, list) and len(out) == 3 and out[0] == "child"
@@ -205,7 +229,7 @@ def verdict(case, o):
 
     for i in range(n):
         if pos == len(ev):
-            return "accept" if out == "OutOfForks" else "reject"
+            return "accept" if out == fork_failed else "reject"
         e = ev[pos]
         pos += 1
         if len(e) != 3 or e[0] != "fork" or e[1] != i:
@@ -220,7 +244,7 @@ def verdict(case, o):
         if len(done) == n:
             return "accept" if (pos == len(ev) and out == [G.Tag("exit"), 0]) else "reject"
         if pos == len(ev):
-            return "accept" if out == "OutOfWaits" else "reject"
+            return "accept" if out == wait_failed else "reject"
         e = ev[pos]
         pos += 1
         if len(e) != 3 or e[0] != "wait":
@@ -240,7 +264,7 @@ def verdict(case, o):
         if restarts + 1 > budget:
             return "accept" if (pos == len(ev) and out == "RuntimeError") else "reject"
         if pos == len(ev):
-            return "accept" if out == "OutOfForks" else "reject"
+            return "accept" if out == fork_failed else "reject"
         e = ev[pos]
         pos += 1
         if len(e) != 3 or e[0] != "fork" or e[1] != i:
@@ -334,7 +358,7 @@ def simulated(rng, n=None, steps=None):
     r = rng.random()
     if r < 0.08:
         np_, cpu = rng.choice([None, 0, -1, -5]), n
-    return mk(np_, budget, forks, waits, cpu=cpu)
+    return mk(np_, budget, forks, waits, cpu=cpu, ek=(rng.randrange(3), rng.randrange(4)))
 
 
 def malformed(rng):
@@ -345,7 +369,7 @@ def malformed(rng):
     waits = [[rng.choice([0, 1, 2, 3, 4, 5, 7, -1, 9]), _status(rng, rng.choice(["normal", "exit", "signal", "odd", "odd"]))]
              for _ in range(rng.randrange(0, 10))]
     return mk(rng.choice([n, n, n, None, 0, -3]), rng.choice([None, -2, -1, 0, 1, 2, 3, 5]), pids, waits,
-              cpu=rng.randrange(0, 4), pre=rng.choice([None] * 9 + [0, 3]))
+              cpu=rng.randrange(0, 4), pre=rng.choice([None] * 9 + [0, 3]), ek=(rng.randrange(3), rng.randrange(4)))
 
 
 def exhaustive(n, budget, depth):
@@ -354,9 +378,11 @@ def exhaustive(n, budget, depth):
     out = []
     forks0 = [10 + i for i in range(n)]
 
+    ek = (budget % 3, (n + budget) % 4)
+
     def rec(live, restarts, forks, waits, d):
         if not live or d == 0:
-            out.append(mk(n, budget, forks + [90], waits))
+            out.append(mk(n, budget, forks + [90], waits, ek=ek))
             return
         # unknown pid (with an abnormal-looking status: must be ignored)
         rec(live, restarts, forks, waits + [[77, SIG9]], d - 1)
@@ -368,7 +394,7 @@ def exhaustive(n, budget, depth):
                 if st == NORMAL:
                     rec(l2, restarts, forks, w2, d - 1)
                 elif restarts + 1 > budget:
-                    out.append(mk(n, budget, forks + [90], w2 + [[live[i], 0]]))   # RuntimeError; trailing wait never read
+                    out.append(mk(n, budget, forks + [90], w2 + [[live[i], 0]], ek=ek))   # RuntimeError; trailing wait never read
                 else:
                     p = 10 + len(forks)
                     l2[i] = p
@@ -398,6 +424,15 @@ def boundary_cases():
         for k in range(len(base_f) + 1):
             out.append(mk(n, 3, base_f[:k], waits))
             out.append(mk(n, 3, base_f[:k] + [0], waits))
+    # every exception kind of os.fork (start-up, restart) and os.wait (first wait, later wait, after unknown pid)
+    for fk in range(len(FORK_ERRORS)):
+        for wk in range(len(WAIT_ERRORS)):
+            out.append(mk(2, 3, [10], [], ek=(fk, wk)))
+            out.append(mk(2, 3, [10, 11], [], ek=(fk, wk)))
+            out.append(mk(2, 3, [10, 11], [[10, SIG9]], ek=(fk, wk)))
+            out.append(mk(2, 3, [10, 11, 12], [[10, SIG9], [77, 0]], ek=(fk, wk)))
+            out.append(mk(2, 3, [10, 11, 12], [[10, SIG9], [11, 0]], ek=(fk, wk)))
+            out.append(mk(1, 0, [10], [[10, EXIT1]], ek=(fk, wk)))
     # num_processes None / <= 0 -> cpu_count(); no workers at all
     for np_ in (None, 0, -1, 1, 2):
         for cpu in (0, 1, 3):
@@ -420,6 +455,17 @@ def corpus_cases():
         mk(1, 0, [10], [[10, 0]]),
         mk(1, 0, [10, 11], [[10, 256]]),
         mk(2, 2, [10, 11, 0], [[11, 15]]),
+        # max_restarts None = 100: 100 abnormal exits are restarted, the 101st fails the supervisor
+        mk(1, None, list(range(10, 130)), [[10 + k, 9 if k % 2 else 256] for k in range(100)] + [[110, 0]]),
+        mk(1, None, list(range(10, 130)), [[10 + k, 9 if k % 2 else 256] for k in range(101)] + [[111, 0]]),
+        # the budget is global, not per worker (seeded change C41_1): budget 1, two different workers fail once each
+        mk(2, 1, [10, 11, 12, 13], [[10, 256], [11, 256], [12, 0], [13, 0]]),
+        # a signal death is abnormal even though WEXITSTATUS is 0 (seeded change C41_2): last worker killed, core dumped
+        mk(1, 0, [10, 11], [[10, 139], [11, 0]]),
+        mk(2, 3, [10, 11, 12], [[11, 0], [10, 9], [12, 0]]),
+        # os.wait() raising ECHILD / EINTR while a worker is still registered
+        mk(1, 3, [10, 11], [[10, 9]], ek=(1, 1)),
+        mk(2, 3, [10, 11], [[5, 0]], ek=(2, 2)),
     ]
 
 
